@@ -218,6 +218,7 @@ pub fn exec_more(t: &[&str]) -> R {
             let (b, what, n) = (be(1)?, *t.get(2).ok_or_else(bad)?, t.get(3).ok_or_else(bad)?.parse::<usize>().map_err(|_| bad())?);
             let mut seen = std::collections::HashSet::new();
             let mut seen_salt = std::collections::HashSet::new();
+            let mut prev: Option<String> = None;
             let key = [7u8; 32];
             let (psk, ppk) = if what == "seal" { crate::gen_paserk::pke_pair(b) } else { (vec![], vec![]) };
             let _ = psk;
@@ -237,9 +238,12 @@ pub fn exec_more(t: &[&str]) -> R {
                             p[tl..tl + 32].to_vec()
                         }
                         "pw" => {
-                            let donor = crate::gen_paserk::pw_template_pub(b, &crate::gen_paserk::min_params(b));
+                            // the cost parameters are read from the *previous output* (the usual re-wrap / password-change
+                            // sequence), the first time from a hand-built template
+                            let donor = prev.clone().unwrap_or_else(|| crate::gen_paserk::pw_template_pub(b, &crate::gen_paserk::min_params(b)));
                             let params = PasswordWrappedKey::<V, Local>::from_str(&donor).map_err(en)?.params().map_err(en)?;
                             let w = key_of::<V, Local>(&key).map_err(en)?.password_wrap_with_params(b"pw", &params).map_err(en)?.to_string();
+                            prev = Some(w.clone());
                             let p = crate::gen_tok::unb64(w.rsplit('.').next().unwrap());
                             let pl = if b.version() % 2 == 1 { 52 } else { 56 };
                             // salt and nonce: both must be fresh; the parameter block in between is constant
